@@ -15,6 +15,7 @@ package main
 import (
 	"fmt"
 	"os"
+	"path/filepath"
 	"strconv"
 	"strings"
 	"time"
@@ -32,6 +33,19 @@ import (
 )
 
 var o *vh.Out
+
+// current.txt holds the case being run, so that a fatal error of the implementation (stack
+// overflow: not recoverable) still leaves the failing input behind for the check.
+var curFile *os.File
+
+func setCurrent(line, src string) {
+	if curFile == nil {
+		return
+	}
+	b := []byte(line + "\n" + strconv.Quote(src) + "\n")
+	curFile.Truncate(0)
+	curFile.WriteAt(b, 0)
+}
 
 // unqField: the real strconv results for every CHAR/STRING token.
 func unqField(sc *tf.Scanned) string {
@@ -229,6 +243,7 @@ func newExRecorded(src []byte, sc *tf.Scanned, ignoreParseErrors bool) string {
 func newCase(src string, tag string) {
 	sc := tf.Scan([]byte(src))
 	line := fmt.Sprintf("tplnew\t%s;%d;%s", sc.TokField(), sc.ScanErrs, unqField(&sc))
+	setCurrent(line, src)
 	a := guarded(func() string {
 		_, err := tpl.New(src)
 		return canon(err, &sc)
@@ -269,6 +284,7 @@ func newCase(src string, tag string) {
 func clCase(src string) {
 	sc := tf.Scan([]byte(src))
 	line := fmt.Sprintf("tplcl\t%s;%s", sc.TokField(), unqField(&sc))
+	setCurrent("", "") // a crash here is not a C27 failure (cl.NewEx on a tree with parse errors)
 	out := newExRecorded([]byte(src), &sc, true)
 	if strings.HasPrefix(out, "PANIC") {
 		o.Count("cl_panic_" + panicClass(out))
@@ -340,6 +356,7 @@ func main() {
 	o = vh.NewOut(f.Out)
 	defer o.Close()
 	os.Stderr, _ = os.OpenFile(os.DevNull, os.O_WRONLY, 0)
+	curFile, _ = os.Create(filepath.Join(f.Out, "current.txt"))
 	if f.Replay != "" {
 		replay(f.Replay)
 		return
@@ -347,6 +364,13 @@ func main() {
 	for _, s := range fixed {
 		newCase(s, "fixed")
 		clCase(s)
+	}
+	// every builtin identifier class (and near misses), alone and against a literal of the same class
+	for _, n := range []string{"EOF", "COMMENT", "IDENT", "INT", "FLOAT", "IMAG", "CHAR", "STRING", "RAT", "UNIT", "LPAREN", "RPAREN",
+		"LBRACK", "RBRACK", "LBRACE", "RBRACE", "RAWSTRING", "QSTRING", "SPACE", "ILLEGAL", "SEMICOLON", "ident", "Int", "STRINGS", "_", "LPAREN2"} {
+		newCase("doc = "+n, "builtin")
+		newCase("doc = "+n+" | \"(\" | STRING | IDENT | \"x\" | "+n, "builtin")
+		newCase(n+" = \"x\"\ndoc = "+n+" | IDENT", "builtin")
 	}
 	// every single byte, escaped and raw, in the three literal forms
 	for b := 0; b < 256; b++ {
